@@ -164,6 +164,58 @@ def _mphys_model(sc, emitted):
     return prob, dicts, "mux." + Fa
 
 
+def _mux_scope_job(k):
+    """The force multiplexer inside a group that has its own linear solver, with some surfaces' forces produced inside the
+    group and the others prescribed from outside (the framework then asks the matrix-free product for a SUBSET of the
+    inputs): forward and reverse totals equal the concatenation permutation, for every solver and surface order."""
+    from mphys.core import MPhysVariables
+
+    from openaerostruct.mphys.mux_surface_forces import MuxSurfaceForces
+
+    LOADS = MPhysVariables.Aerodynamics.Surface.LOADS
+    rng = np.random.default_rng(seed() * 83 + k)
+    ns = 2 + k % 2
+    shapes = [(int(rng.integers(2, 4)), int(rng.integers(2, 5)), 3) for _ in range(ns)]
+    names = ["s%d" % i for i in range(ns)]
+    order = list(rng.permutation(ns))
+    inside = [bool((k >> (1 + i)) & 1) for i in range(ns)]
+    if all(inside) or not any(inside):
+        inside[int(rng.integers(0, ns))] = not inside[0]
+    solver = ["LinearRunOnce", "Direct", "Krylov", "LBGS"][(k // 2) % 4]
+    bad = []
+    J = {}
+    for mode in ("fwd", "rev"):
+        prob = om.Problem(reports=False)
+        ivc = prob.model.add_subsystem("ivc", om.IndepVarComp(), promotes=["*"])
+        grp = prob.model.add_subsystem("coupling", om.Group(), promotes=["*"])
+        for i in range(ns):
+            if inside[i]:
+                ivc.add_output("t%d" % i, val=np.ones(shapes[i]), units="N")
+                grp.add_subsystem("src%d" % i, om.ExecComp("y = 2.0 * t", y={"shape": shapes[i], "units": "N"}, t={"shape": shapes[i], "units": "N"}, has_diag_partials=True),
+                                  promotes_inputs=[("t", "t%d" % i)], promotes_outputs=[("y", names[i] + "_mesh_point_forces")])
+            else:
+                ivc.add_output(names[i] + "_mesh_point_forces", val=np.ones(shapes[i]), units="N")
+        surfs = [{"name": names[i], "mesh": np.zeros(shapes[i])} for i in order]
+        grp.add_subsystem("muxer", MuxSurfaceForces(surfaces=surfs), promotes_inputs=["*_mesh_point_forces"])
+        grp.linear_solver = {"LinearRunOnce": om.LinearRunOnce, "Direct": lambda: om.DirectSolver(assemble_jac=False), "Krylov": lambda: om.ScipyKrylov(atol=1e-14, rtol=1e-14, maxiter=200),
+                             "LBGS": lambda: om.LinearBlockGS(maxiter=10, atol=1e-14, rtol=1e-14, iprint=-1)}[solver]()
+        prob.setup(mode=mode)
+        prob.run_model()
+        wrt = [("t%d" % i) if inside[i] else names[i] + "_mesh_point_forces" for i in range(ns)]
+        J[mode] = prob.compute_totals(of=["muxer." + LOADS], wrt=wrt, return_format="dict")["muxer." + LOADS]
+    sizes = [int(np.prod(shapes[i])) for i in order]
+    off = dict(zip([int(i) for i in order], np.concatenate([[0], np.cumsum(sizes)[:-1]])))
+    n = sum(sizes)
+    for i in range(ns):
+        w = ("t%d" % i) if inside[i] else names[i] + "_mesh_point_forces"
+        P = np.zeros((n, int(np.prod(shapes[i]))))
+        P[int(off[i]) + np.arange(P.shape[1]), np.arange(P.shape[1])] = 2.0 if inside[i] else 1.0
+        for mode in ("fwd", "rev"):
+            if not (float(np.max(np.abs(np.asarray(J[mode][w]) - P))) <= 1e-9):
+                bad.append(("mux_scope:%s:%s" % (mode, solver), {"wrt": w, "order": [int(x) for x in order], "inside": inside}))
+    return {"k": k, "bad": bad, "case": {"surfaces": ns, "solver": solver, "inside": inside, "order": [int(x) for x in order]}}
+
+
 def _mphys_job(a):
     k, mode = a
     rng = np.random.default_rng(seed() * 71 + k)
@@ -281,6 +333,10 @@ def run(tier, only=None):
         R.case(["faraway", r["k"]], True, sample={"faraway_errors_per_decade": r["errs"]} if r["k"] == 0 else None, section="faraway")
         for sig, p in r["bad"]:
             R.violation(sig, {"k": r["k"], "detail": p, "kind": "faraway"})
+    for r in check_exc(pmap(_mux_scope_job, range(16 if tier == "quick" else 96))):
+        R.case(["mux_scope", r["k"]], True, sample=r["case"] if r["k"] % 5 == 0 else None, section="mphys")
+        for sig, p in r["bad"]:
+            R.violation(sig, {"k": r["k"], "case": r["case"], "detail": p, "kind": "mux_scope"})
     # a multi-section surface handed to the point == an ordinary surface with the unified mesh and the same options
     from .. import multisec
 
